@@ -37,7 +37,13 @@ func exercise(cl jwt.Claims, other jwt.Claims) string {
 		}()
 		f()
 	}
-	try("Validate", func() { vr := jwt.CreateValidationResults(); cl.Validate(vr); vr.IsBlocking(true); vr.Errors(); vr.Warnings() })
+	try("Validate", func() {
+		vr := jwt.CreateValidationResults()
+		cl.Validate(vr)
+		vr.IsBlocking(true)
+		vr.Errors()
+		vr.Warnings()
+	})
 	try("String", func() { _ = cl.String() })
 	try("ClaimType", func() { _ = cl.ClaimType() })
 	try("Payload", func() { _ = cl.Payload() })
@@ -54,6 +60,22 @@ func exercise(cl jwt.Claims, other jwt.Claims) string {
 		try("Operator.GetTags", func() { _ = x.GetTags() })
 		try("Operator.SigningKeys", func() { x.SigningKeys.Add("k"); x.SigningKeys.Contains("k"); x.SigningKeys.Remove("k") })
 		try("Operator.Tags", func() { x.Tags.Add("a"); x.Tags.Remove("a"); x.Tags.Contains("a") })
+		// removing entries that are present (first and last), as found in the decoded lists
+		try("Operator.RemovePresent", func() {
+			if n := len(x.SigningKeys); n > 0 {
+				f, l := x.SigningKeys[0], x.SigningKeys[n-1]
+				x.SigningKeys.Remove(f)
+				x.SigningKeys.Remove(l)
+			}
+			if n := len(x.Tags); n > 0 {
+				f, l := x.Tags[0], x.Tags[n-1]
+				x.Tags.Remove(f)
+				x.Tags.Remove(l)
+			}
+			if n := len(x.OperatorServiceURLs); n > 0 {
+				x.OperatorServiceURLs.Remove(x.OperatorServiceURLs[0])
+			}
+		})
 	case *jwt.AccountClaims:
 		try("Account.DidSign", func() { x.DidSign(other); x.DidSign(nil); x.DidSign(user); x.DidSign(act) })
 		try("Account.IsClaimRevoked", func() { x.IsClaimRevoked(user); x.IsClaimRevoked(nil) })
@@ -100,7 +122,12 @@ func exercise(cl jwt.Claims, other jwt.Claims) string {
 		})
 		try("Account.GetTags", func() { _ = x.GetTags() })
 		try("Account.Encode", func() { x.Encode(kpN('O', 0)) })
-		try("Account.RevokeAt", func() { x.RevokeAt("U1", time.Unix(5, 0)); x.Revoke("U2"); x.ClearRevocation("U1"); x.Revocations.MaybeCompact() })
+		try("Account.RevokeAt", func() {
+			x.RevokeAt("U1", time.Unix(5, 0))
+			x.Revoke("U2")
+			x.ClearRevocation("U1")
+			x.Revocations.MaybeCompact()
+		})
 		try("Account.AddMapping", func() { x.AddMapping("a", jwt.WeightedMapping{Subject: "b"}) })
 		try("Account.SigningKeys.Add", func() {
 			x.SigningKeys.Add("k")
@@ -119,8 +146,31 @@ func exercise(cl jwt.Claims, other jwt.Claims) string {
 		try("Account.Encode2", func() { x.Encode(kpN('O', 0)) })
 	case *jwt.UserClaims:
 		try("User.HasEmptyPermissions", func() { x.HasEmptyPermissions(); x.IsBearerToken(); x.GetTags() })
-		try("User.Limits", func() { x.Limits.IsUnlimited(); x.UserLimits.Empty(); x.UserLimits.IsUnlimited(); x.NatsLimits.IsUnlimited(); x.Pub.Empty() })
+		try("User.Limits", func() {
+			x.Limits.IsUnlimited()
+			x.UserLimits.Empty()
+			x.UserLimits.IsUnlimited()
+			x.NatsLimits.IsUnlimited()
+			x.Pub.Empty()
+		})
 		try("User.Src", func() { x.Src.Add("1.2.3.4/8"); x.Src.Contains("x"); x.Src.Remove("x"); x.Src.Set("a,b") })
+		try("User.RemovePresent", func() {
+			for _, l := range []*jwt.StringList{&x.Pub.Allow, &x.Pub.Deny, &x.Sub.Allow, &x.Sub.Deny, &x.AllowedConnectionTypes} {
+				if n := len(*l); n > 0 {
+					f, la := (*l)[0], (*l)[n-1]
+					l.Remove(f)
+					l.Remove(la)
+				}
+			}
+			if n := len(x.Tags); n > 0 {
+				f := x.Tags[0]
+				x.Tags.Remove(f)
+			}
+			if n := len(x.Src); n > 0 {
+				f := x.Src[0]
+				x.Src.Remove(f)
+			}
+		})
 		try("User.Encode", func() { x.Encode(kpN('A', 0)) })
 		try("User.SetScoped", func() { x.SetScoped(true); x.SetScoped(false) })
 	case *jwt.ActivationClaims:
@@ -289,6 +339,42 @@ func allMutations(text string, leaves []string, visit func(mut, how string)) {
 			b, _ := json.Marshal(d)
 			visit(string(b), fmt.Sprintf("%v := %s", p, leaf))
 		}
+		// a list that holds the same entry more than once (no decoder refuses that): first entry repeated at the
+		// end, and right after itself
+		for variant := 0; variant < 2; variant++ {
+			d := clone()
+			did := false
+			apply(d, p, func(parent, key interface{}) {
+				var cur interface{}
+				switch k := key.(type) {
+				case string:
+					cur = parent.(map[string]interface{})[k]
+				case int:
+					cur = parent.([]interface{})[k]
+				}
+				arr, isArr := cur.([]interface{})
+				if !isArr || len(arr) == 0 {
+					return
+				}
+				var na []interface{}
+				if variant == 0 {
+					na = append(append(na, arr...), arr[0])
+				} else {
+					na = append(append(na, arr[0]), arr...)
+				}
+				switch k := key.(type) {
+				case string:
+					parent.(map[string]interface{})[k] = na
+				case int:
+					parent.([]interface{})[k] = na
+				}
+				did = true
+			})
+			if did {
+				b, _ := json.Marshal(d)
+				visit(string(b), fmt.Sprintf("%v first entry repeated (%d)", p, variant))
+			}
+		}
 		if k, ok := p[len(p)-1].(string); ok {
 			d := clone()
 			apply(d, p, func(parent, _ interface{}) { delete(parent.(map[string]interface{}), k) })
@@ -370,7 +456,7 @@ func c11Token(c *Ctx, tok string, note string, withModel bool) {
 }
 
 func runC11(c *Ctx) {
-	c.Res.Rule = "(a) authentically signed tokens of each kind, v2 and v1 layouts, whose payload is a structural mutation of a rich valid payload: EVERY node replaced by each of {null, 0, -1, 1.5, \"x\", \"\", [], [null], [null,null], {}, {\"k\":null}, true, -1, 2^63, 2^64-1, …}, every key dropped / upper-cased — then Decode, DecodeGeneric, the typed decoders, DecorateJWT / FormatUserConfig, and on whatever was decoded: Validate, String, ClaimType, Payload, ExpectedPrefixes, DidSign, IsClaimRevoked, HasExportContainingSubject, HashID, revocation / mapping / signing-key / tag / CIDR mutators, SetScoped, scope queries, Encode; (b) odd issuer strings (well-formed nkeys of the wrong length), (c) arbitrary byte strings through every parser (tokens, credentials, seeds). Any panic is a violation (replay = token or bytes + operation). Decode outcome and validation verdict are also compared with the Lean model. non-trivial = distinct tokens accepted by some decoder."
+	c.Res.Rule = "(a) authentically signed tokens of each kind, v2 and v1 layouts, whose payload is a structural mutation of a rich valid payload: EVERY node replaced by each of {null, 0, -1, 1.5, \"x\", \"\", [], [null], [null,null], {}, {\"k\":null}, true, -1, 2^63, 2^64-1, …}, every key dropped / upper-cased, every list with its first entry repeated — then Decode, DecodeGeneric, the typed decoders, DecorateJWT / FormatUserConfig, and on whatever was decoded: Validate, String, ClaimType, Payload, ExpectedPrefixes, DidSign, IsClaimRevoked, HasExportContainingSubject, HashID, revocation / mapping / signing-key / tag / CIDR mutators, SetScoped, scope queries, Encode; (b) odd issuer strings (well-formed nkeys of the wrong length), (c) arbitrary byte strings through every parser (tokens, credentials, seeds). Any panic is a violation (replay = token or bytes + operation). Decode outcome and validation verdict are also compared with the Lean model. non-trivial = distinct tokens accepted by some decoder."
 	leaves := mutLeaves
 	if !c.Thorough() {
 		leaves = []string{"null", "0", "\"x\"", "[]", "[null]", "[null,null]", "{}", "{\"k\":null}", "1.5", "true", "-1", "9223372036854775808", "18446744073709551615"}
